@@ -200,13 +200,17 @@ fn err_class(e: &automerge::AutomergeError) -> String {
 pub fn exec(s: &mut CrdtSession, toks: &[&str], enc: TextEncoding) -> Vec<String> {
     match toks[0] {
         "crdt.dc.commit" => {
+            s.tx_snapshots.remove(toks[1]);
+            s.tx_state_snapshots.remove(toks[1]);
             let d = s.replicas.get_mut(toks[1]).unwrap();
             let mut opts = automerge::transaction::CommitOptions::default().with_time(toks[2].parse::<i64>().unwrap());
             let msg = String::from_utf8(unhx(toks[3])).unwrap();
             if !msg.is_empty() { opts = opts.with_message(msg); }
             let h = d.commit_with(opts);
-            if let (Some(h), true) = (h, s.iso_snap.contains_key(toks[1])) { s.iso_snap.insert(toks[1].to_string(), vec![h]); }
-            match h { Some(h) => vec!["ok".to_string(), format!("#hash {}", hex::encode(h.0))], None => vec!["none".to_string()] }
+            let isolated = s.iso_snap.contains_key(toks[1]);
+            let orc = h.and_then(|h| super::crdt::own_previous_change_oracle(d, &h, isolated));
+            if let (Some(h), true) = (h, isolated) { s.iso_snap.insert(toks[1].to_string(), vec![h]); }
+            match h { Some(h) => { let mut v = vec!["ok".to_string(), format!("#hash {}", hex::encode(h.0))]; v.extend(orc); v } None => vec!["none".to_string()] }
         }
         "crdt.dc.save" => {
             let d = s.replicas.get(toks[1]).expect("replica");
